@@ -28,6 +28,7 @@ def plan(tier, seed):
     sh = [{"kind": "iban", "countries": c, "tier": tier, "_name": f"iban-{i}"} for i, c in enumerate(gen.chunk(cs, 14 if tier == "quick" else 42))]
     for i in range(2 if tier == "quick" else 8):
         sh.append({"kind": "bic", "part": i, "parts": 2 if tier == "quick" else 8, "tier": tier, "_name": f"bic-{i}"})
+    sh.append({"kind": "contracts", "tier": tier, "_name": "contracts"})
     return sh
 
 
@@ -129,6 +130,10 @@ def run_bic(shard, mon, S):
 
 
 def run_shard(shard, out_base):
+    if shard.get("kind") == "contracts":
+        from vf import suite  # noqa: PLC0415
+
+        return suite.run_contract_shard("C10", out_base)
     mon = Mon("C10")
     S = judge.lib()
     (run_iban if shard["kind"] == "iban" else run_bic)(shard, mon, S)
